@@ -31,6 +31,7 @@ CONSTANTS MaxReq,      \* requests the application makes
           MaxClock,    \* time horizon
           QSize,       \* capacity of the request queue (0 = unbounded)
           MaxReconnects, \* times the client reconnects (a lease belongs to the connection it arrived on)
+          OvertakesHeld, \* BOOLEAN: the behaviour before the fix of F27 (control configuration only)
           AppActsOnHeld \* BOOLEAN: the application cancels / requests more on interactions whose request is still held back
 
 VARIABLES now,
@@ -42,14 +43,15 @@ VARIABLES now,
           leases,      \* history: epoch -> [max, ttl, at]
           conn,        \* number of reconnects so far
           dropped,     \* request ids that were held back when their connection ended (they fail with it)
-          early        \* request ids whose CANCEL / REQUEST_N entered the send queue BEFORE their request frame (finding F27)
-vars == <<now, lease, pending, sent, refused, nextRid, leases, conn, dropped, early>>
+          behind,      \* request ids that have frames (CANCEL / REQUEST_N) waiting behind their held request frame
+          early        \* request ids whose CANCEL / REQUEST_N entered the send queue BEFORE their request frame
+vars == <<now, lease, pending, sent, refused, nextRid, leases, conn, dropped, behind, early>>
 
 Init == /\ now = 0
         /\ lease = [max |-> 0, ttl |-> MaxClock + 1, at |-> 0, ctr |-> 0, epoch |-> 0]
         /\ pending = <<>> /\ sent = <<>> /\ refused = {} /\ nextRid = 1
         /\ leases = <<>>
-        /\ conn = 0 /\ dropped = {}
+        /\ conn = 0 /\ dropped = {} /\ behind = {}
         /\ early = {}
 
 Expired(l) == l.at + l.ttl <= now
@@ -68,7 +70,7 @@ Request ==
                   THEN /\ refused' = refused \cup {nextRid} /\ UNCHANGED <<pending, sent>>
                   ELSE /\ pending' = Append(pending, nextRid) /\ UNCHANGED <<sent, refused>>
     /\ nextRid' = nextRid + 1
-    /\ UNCHANGED <<now, leases, conn, dropped, early>>
+    /\ UNCHANGED <<now, leases, conn, dropped, behind, early>>
 
 (* the release loop of handle_lease: (lease, pending, sent) -> fixpoint *)
 RECURSIVE Release(_, _, _)
@@ -84,10 +86,11 @@ LeaseArrives(g) ==
            r == Release(l0, pending, sent)
        IN /\ lease' = r[1] /\ pending' = r[2] /\ sent' = r[3]
           /\ leases' = Append(leases, [max |-> g[1], ttl |-> g[2], at |-> now])
+          /\ behind' = behind \cap {r[2][i] : i \in 1..Len(r[2])}       \* what waited behind a released request followed it
     /\ UNCHANGED <<now, refused, nextRid, conn, dropped, early>>
 
 Tick == /\ now < MaxClock /\ now' = now + 1
-        /\ UNCHANGED <<lease, pending, sent, refused, nextRid, leases, conn, dropped, early>>
+        /\ UNCHANGED <<lease, pending, sent, refused, nextRid, leases, conn, dropped, behind, early>>
 
 (* connect() of a reconnect: the lease of the previous connection does not carry over - the new connection starts with the zero
    lease (epoch 0: nothing may be sent under it) and an empty request queue *)
@@ -96,16 +99,19 @@ Reconnect ==
     /\ conn' = conn + 1
     /\ lease' = [max |-> 0, ttl |-> MaxClock + 1, at |-> now, ctr |-> 0, epoch |-> 0]
     /\ dropped' = dropped \cup {pending[i] : i \in 1..Len(pending)}
-    /\ pending' = <<>>
+    /\ pending' = <<>> /\ behind' = {}
     /\ UNCHANGED <<now, sent, refused, nextRid, leases, early>>
 
-(* AS IMPLEMENTED (open finding F27): StreamHandler.send_cancel / send_request_n call send_frame, which puts the frame into the
-   send queue at once - also when the stream's own request frame is still waiting for a lease in the request queue.  The frame
-   then reaches the wire before the request (the peer drops it), and the request is still released - and executed - later. *)
+(* StreamHandler.send_cancel / send_request_n on an interaction whose request frame is still waiting for a lease: the frame is kept
+   BEHIND the held request (RSocketBase._frames_behind_queued_request) and follows it into the send queue when a lease releases
+   it (fix of finding F27; before, it went straight to the send queue and reached the wire before the stream's request).
+   OvertakesHeld = TRUE is the old behaviour, kept as a named deviation for the control configuration Lease_f27.cfg. *)
 AppActsOnHeldRequest(r) ==
     /\ AppActsOnHeld
     /\ \E i \in 1..Len(pending) : pending[i] = r
-    /\ early' = early \cup {r}
+    /\ r \notin behind
+    /\ early' = IF OvertakesHeld THEN early \cup {r} ELSE early
+    /\ behind' = behind \cup {r}
     /\ UNCHANGED <<now, lease, pending, sent, refused, nextRid, leases, conn, dropped>>
 
 Next == Request \/ (\E g \in Grants : LeaseArrives(g)) \/ Tick \/ Reconnect \/ (\E r \in 1..MaxReq : AppActsOnHeldRequest(r))
@@ -132,9 +138,10 @@ NothingWaitsUnderUsableLease ==
 GrantsSmall == {<<0, 2>>, <<1, 1>>, <<2, 2>>, <<3, 1>>}
 GrantsWide == {<<0, 1>>, <<1, 1>>, <<1, 3>>, <<2, 2>>, <<3, 1>>, <<4, 4>>}
 
-(* C08 / C09: no frame of a stream precedes its request frame.  REFUTED for the implementation (Lease_f27.cfg, finding F27). *)
+(* C08 / C09: no frame of a stream precedes its request frame (refuted for the behaviour before the fix of F27: Lease_f27.cfg) *)
 NothingOvertakesItsRequest == early = {}
 
+BehindOnlyHeld == \A r \in behind : \E i \in 1..Len(pending) : pending[i] = r
 TypeOK == /\ now \in 0..MaxClock /\ nextRid \in 1..(MaxReq + 1)
           /\ lease.epoch \in {0, Len(leases)}
           /\ (conn = 0 => lease.epoch = Len(leases))
